@@ -1,5 +1,5 @@
 """C20 — hostile or garbled input cannot crash or wedge the proxy (structural clauses)."""
-from engine.anl.casts import const_value
+from engine.anl.casts import const_value, guard_bounds as guard_bounds_
 from engine.anl.origin import fmt, subterms, strip_bb
 from .common import atomic_method, S, co, calls_norm, is_call_term, var_name, render_path, effectful_calls, spawned_children
 from . import C02, C03, C04, C16, C17
@@ -484,6 +484,69 @@ def r13_slice_indices(ctx, reach):
             ctx.ob("R20.13", "%s|index#%d" % (ctx.P.owner(key), n), bad is None, c.site, "bounds tied to the indexed container" if bad is None else
                    "`%s[%s]`: %s — input of the right size makes this index panic, which ends the task that parses it (no reply, no cleanup)" % (fmt(cont)[:30], fmt(idx)[:60], bad[1]))
     ctx.floor("R20.13", "slice index sites on input-reachable code", n, 25)
+    # built-in element indexing (`arr[i]`, `slice[i]`): rustc's bounds check is a panic; the index must be provably inside
+    import re as _re
+    from engine.anl.casts import range_of as _range_of
+    nb = 0
+    for key in sorted(reach):
+        body = ctx.P.bodies[key]
+        if key in ctx.P.inlined_away or key.startswith(("util::cert", "util::tls", "anytls_")):
+            continue
+        o = None
+        for bi in sorted(body.reachable()):
+            t = body.blocks[bi]["term"]
+            if t["t"] != "assert" or not t.get("msg", "").startswith("BoundsCheck"):
+                continue
+            m = _re.match(r"BoundsCheck \{ len: (const (\d+)_usize|(?:move|copy) _(\d+)), index: (const (\d+)_usize|(?:move|copy) _(\d+)) \}", t["msg"])
+            if not m:
+                continue
+            o = o or ctx.origins(body)
+            cfg, conds = ctx.cfg(body), ctx.conds(body)
+            nb += 1
+            len_c = int(m.group(2)) if m.group(2) else None
+            len_t = None if m.group(2) else o.of_place(int(m.group(3)), ())
+            idx_c = int(m.group(5)) if m.group(5) else None
+            idx_t = None if m.group(5) else o.of_place(int(m.group(6)), ())
+            if idx_c is None and const_value(idx_t) is not None:
+                idx_c = const_value(idx_t)
+            if len_c is None and const_value(len_t) is not None:
+                len_c = const_value(len_t)
+            ok = False
+            why = ""
+            if idx_c is not None and len_c is not None:
+                ok = idx_c < len_c
+                why = "constant index %s, %s elements" % (idx_c, len_c)
+            elif idx_c is not None:
+                lo, hi, used = guard_bounds_(body, cfg, conds, o, len_t, bi)
+                # the same length may be spelt as a method call (`buf.len()`) in the guard and as the slice's length here
+                cont_ = len_t[1] if isinstance(len_t, tuple) and len(len_t) > 1 and len_t[0] == "len" else None
+                if cont_ is not None:
+                    for cd in conds.all():
+                        tt = cd.term
+                        if cd.kind == "bool" and isinstance(tt, tuple) and tt and tt[0] == "binop" and tt[1] in ("Ge", "Gt") and is_call_term(tt[2], "::len") and tt[2][3] and \
+                                var_name(tt[2][3][0]) == var_name(cont_) and var_name(cont_) and const_value(tt[3]) is not None and cfg.edges_dominate(cd.edges_for(True), bi):
+                            k_ = const_value(tt[3]) + (1 if tt[1] == "Gt" else 0)
+                            lo = k_ if lo is None else max(lo, k_)
+                ok = lo is not None and lo > idx_c
+                why = "constant index %s under a dominating test that the length is at least %s" % (idx_c, lo)
+            else:
+                lo, hi = _range_of(body, cfg, conds, o, idx_t, bi, [])
+                if len_c is not None:
+                    ok = hi is not None and hi < len_c
+                    why = "index at most %s, %s elements" % (hi, len_c)
+                else:
+                    for cd in conds.all():
+                        tt = cd.term
+                        if cd.kind == "bool" and isinstance(tt, tuple) and tt and tt[0] == "binop" and tt[1] == "Lt" and strip_bb(tt[2]) == strip_bb(idx_t) and strip_bb(tt[3]) == strip_bb(len_t) and cfg.edges_dominate(cd.edges_for(True), bi):
+                            ok = True
+                            why = "dominated by `index < len`"
+                    if isinstance(idx_t, tuple) and idx_t and idx_t[0] == "binop" and idx_t[1] == "Rem" and strip_bb(idx_t[3]) == strip_bb(len_t):
+                        ok = True
+                        why = "index is a remainder by the length"
+            ctx.ob("R20.13", "%s|element-index#%d" % (ctx.P.owner(key), nb), ok, "%s:%s" % (body.blocks[bi]["tspan"].get("file", "?"), body.blocks[bi]["tspan"]["line"]),
+                   why if ok else "the element index `%s` is not provably below the length `%s`: on the right input the bounds check panics and the task that parses it dies (no reply, no cleanup)"
+                   % (idx_c if idx_c is not None else fmt(idx_t)[:50], len_c if len_c is not None else fmt(len_t)[:40]))
+    ctx.floor("R20.13", "element index sites on input-reachable code", nb, 15)
 
 
 def r14_gauges_released_on_every_exit(ctx):
